@@ -640,13 +640,21 @@ def checks_for(m):
 def classify_obligation(b):
     """broken obligation string `kind:where` -> coarse class for the histogram"""
     kind, _, where = b.partition(":")
-    if kind in ("oracle", "correspondence", "harness"):
+    if kind == "oracle" and where.startswith("public-api-coverage"):
+        return "oracle/api-coverage"
+    if kind == "harness":
+        return "harness-panic/timeout"
+    if kind in ("oracle", "correspondence"):
         return kind
     w = where.lower()
     if w.startswith("correspondence "):
         return "correspondence"
-    if "kernel-stationarity" in w or "pi k = pi" in w:
+    if "kernel-stationarity" in w or "pi k = pi" in w or w.startswith("scale-invariance"):
         return "oracle"
+    if w.startswith("public-api-coverage"):
+        return "oracle/api-coverage"
+    if w.startswith("input distribution"):
+        return "coverage-gate"
     if w.startswith("theorem ") or w.startswith("lake build qmcprops") or w.startswith("leanchecker"):
         return "proof/lean"
     if "translate_pure" in w or "purefnsagree" in w or "translated rust" in w or "regenerate generated" in w or "pool capacities" in w \
